@@ -47,3 +47,154 @@ Proof.
   - apply pwfb_sound; auto.
   - apply wfb_sound; auto.
 Qed.
+
+(* parentheses never change the value of a tree, only the grouping they express *)
+Fixpoint strip (a : past jv) : past jv :=
+  match a with
+  | PLeaf _ v => PLeaf jv v
+  | PParen _ a => strip a
+  | PPre _ k tv c => PPre jv k tv (strip c)
+  | PSuf _ k tv c => PSuf jv k tv (strip c)
+  | PBin _ k tv l r => PBin jv k tv (strip l) (strip r)
+  | PTern _ k tv0 tv1 a b c => PTern jv k tv0 tv1 (strip a) (strip b) (strip c)
+  end.
+Lemma peval_strip : forall a, peval' (strip a) = peval' a.
+Proof. unfold peval'.
+  induction a as [v|a IH|k tv c IH|k tv c IH|k tv l IHl r IHr|k tv0 tv1 a IHa b IHb c IHc]; cbn [strip peval].
+  - reflexivity.
+  - exact IH.
+  - rewrite IH. reflexivity.
+  - rewrite IH. reflexivity.
+  - rewrite IHl, IHr. reflexivity.
+  - rewrite IHa, IHb, IHc. reflexivity.
+Qed.
+
+Theorem parens_inert : tables_ok = true ->
+  forall a1 a2, strip a1 = strip a2 ->
+  pwfb a1 = true -> wfb (flat' a1) = true -> pwfb a2 = true -> wfb (flat' a2) = true ->
+  exists f1 f2 v, parse' f1 (tokens' a1) = Some (v, []) /\ parse' f2 (tokens' a2) = Some (v, []).
+Proof.
+  intros Hok a1 a2 Hs P1 W1 P2 W2.
+  destruct (parse_tokens_inst Hok a1 [] P1 W1 I) as [f1 H1].
+  destruct (parse_tokens_inst Hok a2 [] P2 W2 I) as [f2 H2].
+  rewrite app_nil_r in H1, H2.
+  exists f1, f2, (peval' a1). split; auto. rewrite H2. rewrite <- (peval_strip a2), <- Hs, peval_strip. reflexivity.
+Qed.
+
+(* ---------------- C05: the reducer and to_json_operator keep every operand ---------------- *)
+Fixpoint atoms (t : jv) : list nat :=
+  match t with JA n => [n] | JT _ => [] | JC _ args => flat_map atoms args end.
+Fixpoint leaves (a : past jv) : list nat :=
+  match a with
+  | PLeaf _ v => atoms v
+  | PParen _ a => leaves a
+  | PPre _ _ _ c | PSuf _ _ _ c => leaves c
+  | PBin _ _ _ l r => leaves l ++ leaves r
+  | PTern _ _ _ _ a b c => leaves a ++ leaves b ++ leaves c
+  end.
+(* operator payloads are operator tokens (what the reader produces) *)
+Definition is_jt (v : jv) : bool := match v with JT _ => true | _ => false end.
+Fixpoint well_tok (a : past jv) : bool :=
+  match a with
+  | PLeaf _ _ => true
+  | PParen _ a => well_tok a
+  | PPre _ _ tv c | PSuf _ _ tv c => is_jt tv && well_tok c
+  | PBin _ _ tv l r => is_jt tv && well_tok l && well_tok r
+  | PTern _ _ tv0 tv1 a b c => is_jt tv0 && well_tok a && well_tok b && well_tok c
+  end.
+
+Lemma atoms_flat_args name v : flat_map atoms (flat_args name v) = atoms v.
+Proof. destruct v as [n|n args|s]; simpl; try reflexivity.
+  destruct (Nat.eqb n name); simpl; rewrite ?app_nil_r; reflexivity. Qed.
+
+Lemma is_null_atoms v : is_null v = true -> atoms v = [0].
+Proof. destruct v as [[|n]|n args|s]; simpl; try discriminate; reflexivity. Qed.
+
+Lemma bbin_keeps x s y n : n <> 0 -> In n (atoms x ++ atoms y) ->
+  In n (atoms (bbin mname_of mis_flat mfold_of x (JT s) y)).
+Proof.
+  intros Hn Hin. unfold bbin. destruct (mfold_of (mname_of s)) as [f|].
+  - destruct (is_null y) eqn:Ey.
+    + apply is_null_atoms in Ey. rewrite Ey in Hin. simpl. rewrite app_nil_r.
+      apply in_app_or in Hin as [H|[H|[]]]; auto. congruence.
+    + destruct (is_null x) eqn:Ex.
+      * apply is_null_atoms in Ex. rewrite Ex in Hin. simpl. rewrite app_nil_r.
+        destruct Hin as [H|H]; auto. congruence.
+      * simpl. rewrite app_nil_r. exact Hin.
+  - destruct (mis_flat (mname_of s)).
+    + simpl. rewrite flat_map_app, !atoms_flat_args. exact Hin.
+    + simpl. rewrite app_nil_r. exact Hin.
+Qed.
+
+Theorem leaves_kept : forall a, well_tok a = true -> forall n, n <> 0 -> In n (leaves a) -> In n (atoms (peval' a)).
+Proof.
+  unfold peval'.
+  induction a as [v|a IH|k tv c IH|k tv c IH|k tv l IHl r IHr|k tv0 tv1 a IHa b IHb c IHc]; cbn [leaves peval well_tok]; intros Hw n Hn Hin.
+  - exact Hin.
+  - unfold wrap. apply IH; auto.
+  - apply andb_true_iff in Hw as [Ht Hc]. destruct tv; try discriminate. simpl. rewrite app_nil_r. apply IH; auto.
+  - apply andb_true_iff in Hw as [Ht Hc]. destruct tv; try discriminate. simpl. rewrite app_nil_r. apply IH; auto.
+  - apply andb_true_iff in Hw as [Hw Hr]. apply andb_true_iff in Hw as [Ht Hl]. destruct tv; try discriminate.
+    apply bbin_keeps; auto. apply in_app_or in Hin as [H|H]; apply in_or_app; [left; apply IHl|right; apply IHr]; auto.
+  - apply andb_true_iff in Hw as [Hw Hc]. apply andb_true_iff in Hw as [Hw Hb]. apply andb_true_iff in Hw as [Ht Ha].
+    destruct tv0; try discriminate. simpl. rewrite app_nil_r.
+    apply in_app_or in Hin as [H|H]; [apply in_or_app; left; apply IHa; auto|].
+    apply in_app_or in H as [H|H]; apply in_or_app; right; apply in_or_app; [left; apply IHb|right; apply IHc]; auto.
+Qed.
+
+(* ---------------- C03: boolean normal form, so that the premise can be evaluated on the parser's own output ---------------- *)
+Definition not_same (name : nat) (a : jv) : bool := match a with JC n _ => negb (Nat.eqb n name) | _ => true end.
+Definition arity_okb (name : nat) (i : opinfo) (args : list jv) : bool :=
+  match kind i with
+  | KBin => Nat.eqb (length args) 2
+            && (match mfold_of name with None => true | Some _ => forallb (fun a => negb (is_null a)) args end)
+            && (negb (ratom i) || match args with [_; JA _] => true | _ => false end)
+  | KPre | KBinNull => Nat.eqb (length args) 1
+  | KTern => Nat.eqb (length args) 3
+  | KNary => Nat.leb 2 (length args) && forallb (not_same name) args
+  end.
+Fixpoint nfb (t : jv) : bool :=
+  match t with
+  | JA _ => true
+  | JT _ => false
+  | JC name args =>
+      match minfo name with
+      | None => true
+      | Some i => forallb nfb args && arity_okb name i args
+      end
+  end.
+
+Lemma not_same_flat name a : not_same name a = true -> flat_args name a = [a].
+Proof. destruct a as [n|n args|s]; simpl; auto. intros H. apply negb_true_iff in H. rewrite H. reflexivity. Qed.
+
+Lemma nfb_sound : forall t, nfb t = true -> nf' t.
+Proof.
+  unfold nf'. induction t as [n|s|name args IH] using jv_ind'; simpl; intros H; try discriminate.
+  - constructor.
+  - destruct (minfo name) as [i|] eqn:Ei; [|apply NfOut; exact Ei].
+    apply andb_true_iff in H as [Hargs Har].
+    eapply NfOp; [exact Ei| |].
+    + rewrite forallb_forall in Hargs. apply Forall_forall. intros x Hx. rewrite Forall_forall in IH. auto.
+    + unfold arity_okb in Har. unfold arity_ok. destruct (kind i).
+      * apply andb_true_iff in Har as [Har Hr]. apply andb_true_iff in Har as [Hl Hf]. apply Nat.eqb_eq in Hl.
+        split; [exact Hl|]. split.
+        -- intros Hne. destruct (mfold_of name); [|contradiction]. rewrite forallb_forall in Hf.
+           apply Forall_forall. intros x Hx. specialize (Hf x Hx). apply negb_true_iff in Hf. exact Hf.
+        -- intros Hra. rewrite Hra in Hr. simpl in Hr. destruct args as [|l [|[n| |] [|? ?]]]; try discriminate. eauto.
+      * apply andb_true_iff in Har as [Hl Hs]. apply Nat.leb_le in Hl. split; [exact Hl|].
+        rewrite forallb_forall in Hs. apply Forall_forall. intros x Hx. apply not_same_flat. auto.
+      * apply Nat.eqb_eq. exact Har.
+      * apply Nat.eqb_eq. exact Har.
+      * apply Nat.eqb_eq. exact Har.
+Qed.
+
+Theorem parse_format_parse : tables_ok = true ->
+  forall a p, pwfb a = true -> wfb (flat' a) = true -> nfb (peval' a) = true -> edges_ok' (peval' a) p = true ->
+  exists f1 f2, parse' f1 (tokens' a) = Some (peval' a, [])
+             /\ parse' f2 (tokens' (mformat' (peval' a) p)) = Some (peval' a, []).
+Proof.
+  intros Hok a p Hp Hw Hn He.
+  destruct (parse_tokens_inst Hok a [] Hp Hw I) as [f1 H1]. rewrite app_nil_r in H1.
+  destruct (format_then_parse_tables tbl info_tbl name_of_tbl flat_names fold_tbl beh_tbl Hok (peval' a) p (nfb_sound _ Hn) He) as [f2 H2].
+  exists f1, f2. split; [exact H1|exact H2].
+Qed.
